@@ -138,6 +138,32 @@ def closed_form_search(ctx, nmax):
                  'how': "list(%s(base_step=..., step_ratio=..., num_steps=..., step_nom=1.0, offset=..., check_num_steps=False, use_exact_steps=False)(1.0))" % cls.__name__})
             if found >= 3:
                 return
+    # CStepGenerator as documented: num_steps defaults to 2 * int(round(16 / log(abs(step_ratio)))) + 1 -- |step_ratio| is the real ratio on both paths --
+    # and the steps are base * nom * (exp(1j*dtheta) * ratio) ** (i + offset): moduli in geometric progression, arguments advancing by dtheta
+    from numdifftools.limits import CStepGenerator as _CS
+    for path in ('radial', 'spiral'):
+        for ratio in (2.0, 3.0, 4.0, 8.0, 16.0, 1.6):
+            for dtheta in ((np.pi / 8, np.pi / 4, 0.1) if path == 'spiral' else (np.pi / 8,)):
+                for extra in ({}, {'num_steps': 7}, {'offset': 2}):
+                    kw = dict(base_step=0.125, step_ratio=ratio, step_nom=1.0, use_exact_steps=False, path=path, dtheta=dtheta, **extra)
+                    try:
+                        obs = [complex(np.ravel(s)[0]) for s in _CS(**kw)(0.0)]
+                    except Exception as ex:   # noqa
+                        ctx.violation('raises:CStepGenerator', 'CStepGenerator(%r)(0.0) raises %r' % (kw, ex), {'options': {k_: (float(v_) if isinstance(v_, float) else v_) for k_, v_ in kw.items()}})
+                        continue
+                    ctx.count(1, ('cstep', path))
+                    want_n = extra.get('num_steps', 2 * int(round(16.0 / math.log(abs(ratio)))) + 1)
+                    off = extra.get('offset', 0)
+                    th = dtheta if path == 'spiral' else 0.0
+                    want = [0.125 * (np.exp(1j * th) * ratio) ** (i + off) for i in range(want_n - 1, -1, -1)]
+                    ok = len(obs) == want_n and all(abs(o - w) <= 1e-12 * abs(w) for o, w in zip(obs, want))
+                    if not ok:
+                        ctx.violation('cstep-sequence:%s' % path, 'CStepGenerator(step_ratio=%r, path=%r, dtheta=%r, %r) yields %d steps %r...; documented: %d steps base * (exp(1j*dtheta) * ratio)**(i + offset), i = num_steps-1 .. 0, num_steps = 2*int(round(16/log|ratio|)) + 1 by default' % (
+                            ratio, path, dtheta, extra, len(obs), obs[:2], want_n),
+                            {'step_ratio': ratio, 'path': path, 'dtheta': dtheta, 'options': extra, 'observed_count': len(obs), 'documented_count': want_n,
+                             'observed_first': [repr(o) for o in obs[:3]], 'documented_first': [repr(w) for w in want[:3]],
+                             'how': 'from numdifftools.limits import CStepGenerator; list(CStepGenerator(base_step=0.125, step_ratio=ratio, step_nom=1.0, use_exact_steps=False, path=path, dtheta=dtheta, ...)(0.0))'})
+                        return
     # zero steps are dropped: a step is yielded only if EVERY component is non-zero (array-valued base steps, explicit zeros and underflow)
     from numdifftools.limits import CStepGenerator
     for cls, kw in ((MinStepGenerator, {}), (MaxStepGenerator, {}), (CStepGenerator, {'path': 'radial'}), (CStepGenerator, {'path': 'spiral'})):
